@@ -148,6 +148,48 @@ def expected_env(s):
     return ["ok", v]
 
 
+def summary_stage(out, tier):
+    """'each fraction is classified on its own' is also visible in the yearly summary: its LONG and SHORT lines must split
+    a disposal that spans lots on both sides of the threshold.  The windowed runs of the L4 layer (shared, cached) are
+    judged with flags recomputed here from the two instants of every fraction."""
+    from harness import hist, l4, oracle
+    from harness.props.c09 import dates_monotone
+    data = l4.run(tier)
+    base = data["base"]
+    n = 0
+    for (idx, f, t), i in zip(data["jobs"], data["impl"]):
+        c = base["cases"][idx]
+        b = base["impl"][idx]
+        if "ok" not in i or "ok" not in b or c.get("country", "us") != "us":
+            continue
+        n += 1
+        evs = {e["row"]: e for e in hist.taxable_oracle(c)}
+        lots = {r["row"]: r for r in c["ins"]}
+        fr = []
+        bad = None
+        for x in b["ok"]["fractions"]:
+            flag = 0 if x["lot"] is None else (1 if (evs[x["ev"]]["ts"][0] - lots[x["lot"]]["ts"][0]) // DAY >= 365 else 0)
+            if flag != x["long"] and bad is None:
+                bad = f"fraction (event row {x['ev']}, lot row {x['lot']}) is flagged {x['long']}, the two instants give {flag}"
+            y = dict(x)
+            y["long"] = flag
+            fr.append(y)
+        rep = {"case": c, "from": f, "to": t}
+        if bad:
+            out.violation(bad, rep, tags={"fraction-flag"})
+            continue
+        if not dates_monotone(c):
+            continue            # the to-date cut of such histories is finding F9 (reported by C06 / C10)
+        want = {k: v[0] for k, v in oracle.yearly(c, fr, t, f).items()}
+        got = {(y[0], y[1], y[2]): y[3] for y in i["ok"]["yearly"]}
+        if want != got:
+            diff = sorted(set(want) ^ set(got)) or [k for k in want if want[k] != got.get(k)]
+            out.violation(f"yearly summary under window ({f}, {t}): the LONG / SHORT lines do not split the fractions by their own holding "
+                          f"periods: lines {diff[:3]} (expected crypto amounts {[want.get(k) for k in diff[:3]]}, reported {[got.get(k) for k in diff[:3]]})",
+                          rep, tags={"summary-long-short-split"})
+    return n
+
+
 def run(tier, build, replay=None):
     out = core.Outcome("C05", tier)
     proofs = core.check_proofs(build, "C05.v")
@@ -202,10 +244,9 @@ def run(tier, build, replay=None):
             out.violation(f"LONG_TERM_CAPITAL_GAINS={show(s)!r}: implementation {r if r[0] == 'err' else ['ok', str(r[1])[:30]]}, model of "
                           f"Generic.__init__ (cmd 4, digit limit {max_str_digits()}) {[str(x)[:30] for x in m[:2]]}",
                           {"env": None if s is UNSET else s}, tags={"correspondence", "generic-env"}, found_input=False)
-    if not proofs.ok:
-        if not any(v["found_input"] for v in out.violations):
-            out.violation("proof obligations of Properties/C05.v no longer check:\n" + proofs.log[-1500:],
-                          {"theorems": proofs.theorems, "translator": build.translator}, tags={"proof-broken"}, found_input=False)
+    n_summary = summary_stage(out, tier) if not replay else 0
+    out.coverage["windowed_runs_judged_on_the_summary_split"] = n_summary
+    core.proofs_verdict(out, proofs, build, "C05.v")
     out.coverage.update({
         "evaluations": len(cases) + len(env_cases),
         "distinct_nontrivial": len(nontrivial),
